@@ -161,8 +161,14 @@ def run_convert(ctx, tr, d, s, k, via, key):
     pem = d / f"c{k}.pem"
     pem.write_bytes(key.private_bytes(serialization.Encoding.PEM, serialization.PrivateFormat.PKCS8, serialization.NoEncryption()))
     out = d / f"c{k}.c"
-    kw = dict(input_file=str(pem), output_file=str(out), array_type="uint8_t", array_name="public_key", length_type="size_t",
-              length_name="public_key_len", columns_count=s["cols"], header_file="", footer_file="",
+    decor = bool(s.get("decor"))
+    hdr, ftr = d / f"c{k}_header.txt", d / f"c{k}_footer.txt"
+    if decor:
+        hdr.write_text("/* generated key, do not edit */\n#include <stdint.h>\n")
+        ftr.write_text("/* end of key */\n")
+    kw = dict(input_file=str(pem), output_file=str(out), array_type="unsigned char" if decor else "uint8_t", array_name="public_key",
+              length_type="uint32_t" if decor else "size_t",
+              length_name="public_key_len", columns_count=s["cols"], header_file=str(hdr) if decor else "", footer_file=str(ftr) if decor else "",
               indentation_count=s["indent"], indentation_tab=s["tab"], no_length=s["nolength"], no_const=s["noconst"])
     if via == "cli":
         a = ["convert", "--input-file", pem, "--output-file", out, "--columns-count", s["cols"], "--indentation-count", s["indent"],
@@ -173,6 +179,8 @@ def run_convert(ctx, tr, d, s, k, via, key):
             a.append("--no-length")
         if s["noconst"]:
             a.append("--no-const")
+        if decor:
+            a += ["--array-type", "unsigned char", "--length-type", "uint32_t", "--header-file", hdr, "--footer-file", ftr]
         subprocess.run(core.cli_cmd(*a), cwd=d, env=core.cli_env(), capture_output=True, text=True)
     else:
         core.setup_repo_path()
@@ -188,7 +196,7 @@ def run_convert(ctx, tr, d, s, k, via, key):
     tokens = [int(m, 16) for m in TOK.findall(body)]
     rest = text[text.find("}") + 1:] if "}" in text else ""
     lenvar = "public_key_len" in rest
-    lensizeof = bool(re.search(r"public_key_len\s*=\s*(\(\s*size_t\s*\)\s*)?sizeof\s*\(\s*public_key\s*\)", rest))
+    lensizeof = bool(re.search(r"public_key_len\s*=\s*(\(\s*[\w ]+\s*\)\s*)?sizeof\s*\(\s*public_key\s*\)", rest))
     pub = key.public_key()
     if s["type"] in WIDTH:
         n = pub.public_numbers()
@@ -248,6 +256,12 @@ def run(ctx: core.Check):
                 seen.add(key)
                 keep.append(s)
         conv_s = keep[:170]
+        # every (key type, columns) pair and both decor values at least once (rows ending at / around the end of the key)
+        have = {(x["type"], x["cols"], x["decor"]) for x in conv_s}
+        for x in keep[170:] + [y for y in scns if y["kind"] == "convert" and y["zx"] + y["zy"] == 0]:
+            if (x["type"], x["cols"], x["decor"]) not in have:
+                have.add((x["type"], x["cols"], x["decor"]))
+                conv_s.append(x)
     ctx.note(f"Use B/C: {len(conv_s)} convert scenarios (searching keys with leading zero bytes)")
     skipped = 0
     lead = 0
